@@ -110,6 +110,15 @@ static void scenario(vrng *r, vbuf *t, uint64_t *kinds)
             }
             vb_u8(t, ret); vb_u8(t, (uint8_t)w.error_flags); t_u64(t, binson_writer_get_counter(&w));
         }
+        if (w.error_flags == BINSON_ERROR_NONE && binson_writer_get_counter(&w) >= 24 && binson_writer_get_counter(&w) + 64 < cap) {
+            /* in-place moves inside the writer's own buffer, both directions (the writer copies with memmove) */
+            size_t u = binson_writer_get_counter(&w);
+            bool r1 = binson_write_raw(&w, dst + u - 8, 20);          /* src < dst < src+len */
+            size_t u2 = binson_writer_get_counter(&w);
+            memset(dst + u2 + 3, 0x33, 30);
+            bool r2 = binson_write_bytes(&w, dst + u2 + 3, 30);       /* source just above its destination */
+            vb_u8(t, r1); vb_u8(t, r2);
+        }
         size_t used = binson_writer_get_counter(&w);
         vb_put(t, dst, used < cap ? used : cap);
         if (w.error_flags == BINSON_ERROR_NONE) { vb_u8(t, binson_writer_verify(&w)); }
